@@ -13,7 +13,8 @@
 use graphql_builtins::generate_builtins;
 use nitrogql_ast::base::Pos;
 use nitrogql_ast::{set_current_file_of_pos, OperationDocument, TypeSystemOrExtensionDocument};
-use nitrogql_checker::{check_operation_document, check_type_system_document, OperationCheckContext};
+use nitrogql_checker::{check_operation_document, check_type_system_document, CheckError, CheckErrorMessage, OperationCheckContext};
+use nitrogql_plugin::{ModelPlugin, Plugin, PluginHost};
 use nitrogql_config_file::parse_config;
 use nitrogql_error::PositionedError;
 use nitrogql_parser::{parse_operation_document, parse_type_system_document};
@@ -206,6 +207,7 @@ const FAULT_KINDS: &[&str] = &[
     "schema-unknown-type", "schema-duplicate", "schema-extend-missing",
     "op-unknown-field", "op-unknown-fragment", "op-import-missing-file", "op-import-missing-fragment", "op-wildcard-twice",
     "gen-missing-schema-output", "gen-emit-runtime-dts", "cfg-unknown-plugin", "cfg-invalid", "cfg-no-schema",
+    "schema-plugin-misuse", "gen-output-without-file-name",
 ];
 /// faults whose handling by the current code violates the property (known findings; kept in dedicated projects)
 const KNOWN_FAULT_KINDS: &[&str] = &["schema-eof-unclosed", "op-eof-unclosed", "gen-scalar-type-missing", "op-invalid-unspread-fragment"];
@@ -237,13 +239,14 @@ fn base_project(rng: &mut Rng, idx: usize, thorough: bool, at_least_two: bool) -
     }
     let scalars: Vec<(String, String)> = schema.types.iter().filter(|t| matches!(t.kind, g::Kind::Scalar))
         .map(|t| (t.name.clone(), (*rng.pick(&["string", "number", "unknown", "Date"])).to_string())).collect();
-    let mut gen = GenCfg { mode: rng.below(3), schema_output: Some((*rng.pick(&["generated/schema.d.ts", "src/schema.ts", "schema.d.ts", "out/deep/dir/types.d.ts"])).to_string()), scalars, ..Default::default() };
+    let mut gen = GenCfg { mode: rng.below(3), schema_output: Some((*rng.pick(&["generated/schema.d.ts", "src/schema.ts", "schema.d.ts", "out/deep/dir/types.d.ts", "./generated/schema.d.ts", "out/../gen/schema.ts", "@ABS@/abs/schema.d.ts"])).to_string()), scalars, ..Default::default() };
     if rng.chance(1, 3) { gen.server_output = Some((*rng.pick(&["generated/graphql.ts", "server/schema.js"])).to_string()); }
-    if rng.chance(1, 3) { gen.resolvers_output = Some((*rng.pick(&["generated/resolvers.d.ts", "src/resolvers.ts"])).to_string()); }
+    if rng.chance(1, 3) { gen.resolvers_output = Some((*rng.pick(&["generated/resolvers.d.ts", "src/resolvers.ts", "./src/./resolvers.d.ts"])).to_string()); }
     if rng.chance(1, 6) { gen.module_specifier = Some("@/generated/schema".into()); if rng.chance(1, 2) { gen.schema_output = None; gen.resolvers_output = gen.resolvers_output.take(); } }
     if rng.chance(1, 6) && gen.schema_output.as_deref().map_or(true, |o| !o.ends_with(".d.ts")) { gen.emit_runtime = true; }
+    let plugins: Vec<String> = if rng.chance(1, 5) { vec!["nitrogql:model-plugin".into()] } else { vec![] };
     let proj = Project {
-        name: format!("p{idx}"), schema_files, op_files: vec![], plugins: vec![], gen, yaml_override: None, faults: vec![],
+        name: format!("p{idx}"), schema_files, op_files: vec![], plugins, gen, yaml_override: None, faults: vec![],
         schema_glob: Some("schema/*.graphql".into()), docs_glob: Some("ops/*.graphql".into()),
     };
     Built { proj, docs, schema }
@@ -334,6 +337,12 @@ fn inject(rng: &mut Rng, root: &Path, b: &mut Built, kind: &str, prefix: &mut Ve
             b.proj.schema_files[sj].1.push_str(&format!("type Extra{serial} {{\n  zz: UndefinedType{serial}\n}}\n"));
             f.stage = 4; f.files = vec![sfile];
         }
+        "schema-plugin-misuse" => {
+            // the model plugin's own check (runs only when check_type_system_document has nothing to say)
+            if !b.proj.plugins.iter().any(|p| p == "nitrogql:model-plugin") { b.proj.plugins.insert(0, "nitrogql:model-plugin".into()); }
+            b.proj.schema_files[sj].1.push_str(&format!("type Modelled{serial} @model {{\n  a: Int\n}}\n"));
+            f.stage = 5; f.files = vec![sfile];
+        }
         "schema-duplicate" => {
             // a second definition of an object type that exists somewhere in the schema
             let Some(victim) = b.schema.types.iter().find(|t| matches!(t.kind, g::Kind::Object { .. })).map(|t| t.name.clone()) else { return false };
@@ -350,39 +359,40 @@ fn inject(rng: &mut Rng, root: &Path, b: &mut Built, kind: &str, prefix: &mut Ve
             if cands.is_empty() { return false; }
             let k = *rng.pick(&cands);
             b.docs[dj].ops[k].sel.push(g::Sel::Field { alias: None, name: format!("zzUnknown{serial}"), args: vec![], dirs: vec![], sub: None });
-            f.stage = 7; f.files = vec![dfile];
+            f.stage = 8; f.files = vec![dfile];
         }
         "op-unknown-fragment" => {
             let cands: Vec<usize> = (0..b.docs[dj].ops.len()).filter(|k| b.docs[dj].ops[*k].kind != "subscription").collect();
             if cands.is_empty() { return false; }
             let k = *rng.pick(&cands);
             b.docs[dj].ops[k].sel.push(g::Sel::Spread { name: format!("MissingFragment{serial}"), dirs: vec![] });
-            f.stage = 7; f.files = vec![dfile];
+            f.stage = 8; f.files = vec![dfile];
         }
         "op-import-missing-file" => {
             prefix[dj].push(format!("#import * from \"./nope{serial}.graphql\""));
-            f.stage = 6; f.files = vec![dfile];
+            f.stage = 7; f.files = vec![dfile];
         }
         "op-import-missing-fragment" => {
             if nd < 2 { return false; }
             let other = (dj + 1) % nd;
             prefix[dj].push(format!("#import Zzz{serial} from \"./q{other}.graphql\""));
-            f.stage = 6; f.files = vec![dfile]; f.via = Some(abs(root, &format!("ops/q{other}.graphql")));
+            f.stage = 7; f.files = vec![dfile]; f.via = Some(abs(root, &format!("ops/q{other}.graphql")));
         }
         "op-wildcard-twice" => {
             if nd < 2 { return false; }
             let other = (dj + 1) % nd;
             prefix[dj].push(format!("#import *, * from \"./q{other}.graphql\""));
-            f.stage = 5; f.files = vec![dfile];
+            f.stage = 6; f.files = vec![dfile];
         }
         "op-invalid-unspread-fragment" => {
             // a fragment definition nothing spreads, selecting a field that does not exist: `check` never looks at it
             let q = b.schema.query.clone();
             suffix[dj].push_str(&format!("fragment Unused{serial} on {q} {{\n  zzNowhere{serial}\n}}\n"));
-            f.stage = 7; f.files = vec![dfile]; f.known = vec!["unspread-fragment-not-checked-then-generate-panics".into()];
+            f.stage = 8; f.files = vec![dfile]; f.known = vec!["unspread-fragment-not-checked-then-generate-panics".into()];
         }
-        "gen-missing-schema-output" => { b.proj.gen.schema_output = None; b.proj.gen.module_specifier = None; f.stage = 8; }
-        "gen-emit-runtime-dts" => { b.proj.gen.schema_output = Some("generated/schema.d.ts".into()); b.proj.gen.emit_runtime = true; f.stage = 8; }
+        "gen-missing-schema-output" => { b.proj.gen.schema_output = None; b.proj.gen.module_specifier = None; f.stage = 9; }
+        "gen-output-without-file-name" => { b.proj.gen.schema_output = Some("generated/..".into()); b.proj.gen.emit_runtime = false; f.stage = 9; }
+        "gen-emit-runtime-dts" => { b.proj.gen.schema_output = Some("generated/schema.d.ts".into()); b.proj.gen.emit_runtime = true; f.stage = 9; }
         "gen-scalar-type-missing" => {
             if b.proj.gen.schema_output.is_none() { b.proj.gen.schema_output = Some("generated/schema.d.ts".into()); b.proj.gen.emit_runtime = false; }
             // make sure there is a custom scalar, and configure no TypeScript type for any
@@ -390,7 +400,7 @@ fn inject(rng: &mut Rng, root: &Path, b: &mut Built, kind: &str, prefix: &mut Ve
             b.proj.gen.scalars.clear(); b.proj.gen.server_output = None;
             // the printer's error carries the position of the scalar definition; one of the files declaring a scalar has to be named
             f.files = b.proj.schema_files.iter().filter(|(_, t)| t.lines().any(|l| l.starts_with("scalar "))).map(|(n, _)| abs(root, n)).collect();
-            f.stage = 8; f.known = vec!["generate-stage-error-not-located".into()];
+            f.stage = 9; f.known = vec!["generate-stage-error-not-located".into()];
         }
         "cfg-unknown-plugin" => { b.proj.plugins.push(format!("no-such-plugin-{serial}")); f.stage = 0; }
         "cfg-invalid" => { b.proj.yaml_override = Some("schema: [\n".into()); f.stage = 0; }
@@ -410,6 +420,8 @@ struct Oracles {
     op_parse: Vec<Option<PE>>,
     sch_resolve: Option<PE>,
     sch_check: Vec<PE>,
+    sch_plugin_check: Vec<PE>,
+    virtual_files: Vec<String>,
     op_ext: Vec<Option<PE>>,
     op_imp: Vec<Option<PE>>,
     op_check: Vec<Vec<PE>>,
@@ -426,12 +438,17 @@ impl<'src> OperationResolver<'src> for Ops<'_, 'src> {
     fn resolve(&self, path: &Path) -> Option<(&OperationDocument<'src>, &OperationExtension<'src>)> { self.map.get(path).copied() }
 }
 
+struct Host { files: Vec<&'static str> }
+impl PluginHost for Host {
+    fn load_virtual_file(&mut self, content: String) -> &'static str { let s: &'static str = Box::leak(content.into_boxed_str()); self.files.push(s); s }
+}
+
 fn leak(s: &str) -> &'static str { Box::leak(s.to_string().into_boxed_str()) }
 
 fn step_of<T>(r: Result<Result<T, PE>, String>) -> Step { match r { Ok(Ok(_)) => Step::Ok, Ok(Err(e)) => Step::Err(e), Err(p) => Step::Panic(p) } }
 
 /// schema files and operation files with absolute paths, in file-store order
-fn oracles(yaml: &str, schema: &[(String, String)], ops: &[(String, String)]) -> Oracles {
+fn oracles(yaml: &str, schema: &[(String, String)], ops: &[(String, String)], plugin_names: &[String]) -> Oracles {
     let mut o = Oracles::default();
     let ns = schema.len();
     o.schema_parse = vec![None; ns];
@@ -449,20 +466,40 @@ fn oracles(yaml: &str, schema: &[(String, String)], ops: &[(String, String)]) ->
         set_current_file_of_pos(i);
         match parse_type_system_document(leak(text)) { Ok(d) => sdocs.push(d), Err(e) => o.schema_parse[i] = Some(pe(e.into())) }
     }
-    let mut odocs = vec![];
-    for (i, (_, text)) in ops.iter().enumerate() {
-        set_current_file_of_pos(ns + i);
-        match parse_operation_document(leak(text)) { Ok(d) => odocs.push(d), Err(e) => o.op_parse[i] = Some(pe(e.into())) }
+    if o.schema_parse.iter().any(|x| x.is_some()) {
+        // the CLI stops here; operation files are never parsed
+        return o;
     }
-    if o.schema_parse.iter().any(|x| x.is_some()) || o.op_parse.iter().any(|x| x.is_some()) { return o; }
-    // merge, built-ins, resolve, check
-    o.reached = "schema";
+    // merge, built-ins, plugin additions (each becomes a virtual file of the store, after the schema files)
+    let plugins: Vec<Plugin> = plugin_names.iter().filter(|n| n.as_str() == "nitrogql:model-plugin").map(|_| Plugin::new(Box::new(ModelPlugin {}))).collect();
     let mut merged = TypeSystemOrExtensionDocument::merge(sdocs);
     merged.extend(generate_builtins());
     merged.extend(nitrogql_builtins());
+    let mut host = Host { files: vec![] };
+    for pl in &plugins {
+        if let Ok(Some(add)) = pl.schema_addition(&mut host) { merged.extend(add.definitions); }
+    }
+    o.virtual_files = host.files.iter().map(|s| s.to_string()).collect();
+    let nv = o.virtual_files.len();
+    let mut odocs = vec![];
+    for (i, (_, text)) in ops.iter().enumerate() {
+        set_current_file_of_pos(ns + nv + i);
+        match parse_operation_document(leak(text)) { Ok(d) => odocs.push(d), Err(e) => o.op_parse[i] = Some(pe(e.into())) }
+    }
+    if o.op_parse.iter().any(|x| x.is_some()) { return o; }
+    o.reached = "schema";
     let resolved = match resolve_schema_extensions(merged) { Ok(d) => d, Err(e) => { o.sch_resolve = Some(pe(e.into())); return o; } };
     o.sch_check = check_type_system_document(&resolved).into_iter().map(|e| pe(e.into())).collect();
     if !o.sch_check.is_empty() { return o; }
+    for pl in &plugins {
+        for error in pl.check_schema(&resolved).errors {
+            // the conversion resolve_schema (cli/src/check.rs) applies
+            let ce = CheckError { position: error.position, message: CheckErrorMessage::Plugin { message: error.message },
+                additional_info: error.additional_info.into_iter().map(|(pos, message)| (pos, CheckErrorMessage::Plugin { message })).collect() };
+            o.sch_plugin_check.push(pe(ce.into()));
+        }
+    }
+    if !o.sch_plugin_check.is_empty() { return o; }
     o.reached = "operations";
     let ts = ast_to_type_system(&resolved);
     let mut exts = vec![];
@@ -493,15 +530,15 @@ fn oracles(yaml: &str, schema: &[(String, String)], ops: &[(String, String)]) ->
     o.print_server = Some(step_of(catch(AssertUnwindSafe(|| {
         let mut buffer = String::new();
         let mut w = JsStringWriter::new(&mut buffer);
-        remove_builtins(&resolved).print_graphql(&mut w);
+        let doc = plugins.iter().fold(remove_builtins(&resolved), |doc, pl| match pl.transform_document_for_runtime_server(&doc) { Some(next) => next, None => doc });
+        doc.print_graphql(&mut w);
         Ok::<(), PE>(())
     }))));
     o.print_resolvers = Some(step_of(catch(AssertUnwindSafe(|| {
         let mut w = SourceWriter::new();
-        let no_plugins: Vec<nitrogql_plugin::Plugin> = vec![];
         let mut options = ResolverTypePrinterOptions::from_config(&config);
         options.schema_source = "./schema".into();
-        ResolverTypePrinter::new(options, &mut w).print_document(&resolved, &no_plugins).map_err(|e| pe(e.into()))
+        ResolverTypePrinter::new(options, &mut w).print_document(&resolved, &plugins).map_err(|e| pe(e.into()))
     }))));
     for (i, d) in full.iter().enumerate() {
         o.op_print[i] = step_of(catch(AssertUnwindSafe(|| {
@@ -583,7 +620,7 @@ fn main() {
     let scratch = fs::canonicalize(&scratch).expect("scratch dir must exist");
     assert!(!scratch.starts_with("/repo") && !scratch.starts_with("/verif"), "scratch directory must be outside /repo and /verif");
     let mut rng = Rng::new(args.seed);
-    let n_projects = if thorough { 500 } else { 45 };
+    let n_projects = if thorough { 1200 } else { 45 };
     let mut outs: Vec<CaseOut> = vec![];
     let mut stats: BTreeMap<String, u64> = BTreeMap::new();
     let mut bump = |k: &str, n: u64| { *stats.entry(k.to_string()).or_insert(0) += n; };
@@ -616,15 +653,16 @@ fn main() {
             else { let k = rng.range(1, if thorough { 4 } else { 2 }); for _ in 0..k { kinds.push((*rng.pick(FAULT_KINDS), None)); } }
         }
         let mut b = base_project(&mut rng, idx, thorough, pair);
+        if let Some(o) = &b.proj.gen.schema_output { if o.starts_with("@ABS@") { b.proj.gen.schema_output = Some(o.replace("@ABS@", &root.to_string_lossy())); } }
         let nd = b.docs.len();
         let mut prefix: Vec<Vec<String>> = vec![vec![]; nd];
         let mut suffix: Vec<String> = vec![String::new(); nd];
         for (k, force) in kinds { serial += 1; if inject(&mut rng, &root, &mut b, k, &mut prefix, &mut suffix, serial, force) { bump(&format!("fault_{k}"), 1); } }
         // resolving the imports of a file descends into the imported file first: an import fault there is what gets
         // reported for the importing file too (positioned in the imported file)
-        let stage6: Vec<String> = b.proj.faults.iter().filter(|f| f.stage == 6).flat_map(|f| f.files.first().cloned()).collect();
+        let stage7: Vec<String> = b.proj.faults.iter().filter(|f| f.stage == 7).flat_map(|f| f.files.first().cloned()).collect();
         for f in b.proj.faults.iter_mut() {
-            if let Some(v) = &f.via { if stage6.contains(v) && !f.files.contains(v) { f.files.push(v.clone()); } }
+            if let Some(v) = &f.via { if stage7.contains(v) && !f.files.contains(v) { f.files.push(v.clone()); } }
         }
         render_ops(&mut rng, &mut b, &mut prefix, &mut suffix);
         let p = b.proj.clone();
@@ -646,7 +684,7 @@ fn main() {
         sfiles.sort_by(|a, b| PathBuf::from(&a.0).cmp(&PathBuf::from(&b.0)));
         ofiles.sort_by(|a, b| PathBuf::from(&a.0).cmp(&PathBuf::from(&b.0)));
         let no_schema_glob = p.schema_glob.is_none();
-        let orc = oracles(&yaml, &sfiles, &ofiles);
+        let orc = oracles(&yaml, &sfiles, &ofiles, &p.plugins);
         bump(&format!("pipeline_reached_{}", orc.reached), 1);
         if let Some(Step::Panic(m)) = &orc.print_schema { bump("panic_print_schema", 1); let _ = m; }
         for s in &orc.op_print { if let Step::Panic(_) = s { bump("panic_print_operation", 1); } }
@@ -659,10 +697,10 @@ fn main() {
             if orc.config_ok { "CfgOk".to_string() } else { format!("(CfgInvalid {})", cq_str(&abs(&root, "graphql.config.yaml"))) },
             cq_strs(&p.plugins), coq_bool(no_schema_glob));
         let _ = writeln!(def, "  {}", coq_list(&(0..sfiles.len()).collect::<Vec<_>>(), |i| format!("mk_schf {} {} {}", cq_str(&sfiles[*i].0), cq_str(&sfiles[*i].1), cq_ope(&orc.schema_parse[*i]))));
-        let _ = writeln!(def, "  []");
+        let _ = writeln!(def, "  {}", coq_list(&orc.virtual_files, |c| format!("({}, {})", cq_str("(plugin)"), cq_str(c))));
         let _ = writeln!(def, "  {}", coq_list(&(0..ofiles.len()).collect::<Vec<_>>(), |i| format!("mk_opf {} {} {} {} {} {} {}", cq_str(&ofiles[*i].0), cq_str(&ofiles[*i].1),
             cq_ope(&orc.op_parse[*i]), cq_ope(&orc.op_ext[*i]), cq_ope(&orc.op_imp[*i]), coq_list(&orc.op_check[*i], cq_pe), cq_step(&orc.op_print[*i]))));
-        let _ = writeln!(def, "  {} {} []", cq_ope(&orc.sch_resolve), coq_list(&orc.sch_check, cq_pe));
+        let _ = writeln!(def, "  {} {} {}", cq_ope(&orc.sch_resolve), coq_list(&orc.sch_check, cq_pe), coq_list(&orc.sch_plugin_check, cq_pe));
         let _ = writeln!(def, "  (mk_gencfg {} {} {} {} {} {})", MODE_COQ[p.gen.mode], coq_opt(&p.gen.schema_output, |x| cq_str(x)), coq_opt(&p.gen.server_output, |x| cq_str(x)),
             coq_opt(&p.gen.resolvers_output, |x| cq_str(x)), coq_bool(p.gen.module_specifier.is_some()), coq_bool(p.gen.emit_runtime));
         let _ = writeln!(def, "  {} {} {}.", cq_step(orc.print_schema.as_ref().unwrap_or(&Step::Ok)), cq_step(orc.print_server.as_ref().unwrap_or(&Step::Ok)), cq_step(orc.print_resolvers.as_ref().unwrap_or(&Step::Ok)));
@@ -687,14 +725,14 @@ fn main() {
             if cmds.is_empty() { faults.push(Fault { kind: "usage-no-command".into(), stage: 0, files: vec![], known: vec![], via: None }); }
             for c in &cmds {
                 match *c {
-                    "check" => { if state_resolved { faults.push(Fault { kind: "usage-check-after-command".into(), stage: 9, files: vec![], known: vec![], via: None }); } state_resolved = true; }
+                    "check" => { if state_resolved { faults.push(Fault { kind: "usage-check-after-command".into(), stage: 10, files: vec![], known: vec![], via: None }); } state_resolved = true; }
                     "generate" => { state_resolved = true; }
-                    _ => faults.push(Fault { kind: "usage-unknown-command".into(), stage: 9, files: vec![], known: vec![], via: None }),
+                    _ => faults.push(Fault { kind: "usage-unknown-command".into(), stage: 10, files: vec![], known: vec![], via: None }),
                 }
             }
             // generate-stage faults only count when generate runs
             let has_generate = cmds.iter().any(|c| *c == "generate");
-            faults.retain(|x| x.stage != 8 || has_generate);
+            faults.retain(|x| x.stage != 9 || has_generate);
             let spec_run = if faults.len() == p.faults.len() && faults.iter().zip(p.faults.iter()).all(|(a, b)| a.kind == b.kind) { spec.clone() }
                 else { format!("(mk_spec {} {})", coq_list(&faults, |f| format!("mk_fault {} {}", coq_n(f.stage as u64), cq_strs(&f.files))), cq_strs(&plan)) };
             let fmt_coq = match f { "human" => "Human", "json" => "Json", _ => "Rdjson" };
@@ -708,7 +746,8 @@ fn main() {
                 "known_classes": known, "config": yaml, "files": files,
                 "exit": obs.exit, "stdout": obs.stdout, "stderr": obs.stderr, "written": obs.written, "disturbed": obs.disturbed, "planned": plan,
                 "stage_answers": {
-                    "reached": orc.reached,
+                    "reached": orc.reached, "virtual_files": orc.virtual_files,
+                    "schema_plugin_check": orc.sch_plugin_check.iter().map(pe_json).collect::<Vec<_>>(),
                     "schema_parse": orc.schema_parse.iter().map(|e| e.as_ref().map(pe_json)).collect::<Vec<_>>(),
                     "operation_parse": orc.op_parse.iter().map(|e| e.as_ref().map(pe_json)).collect::<Vec<_>>(),
                     "schema_resolve": orc.sch_resolve.as_ref().map(pe_json),
